@@ -1378,7 +1378,6 @@ func ruleB15(c *Ctx) {
 	c.ok("B15", "binary searches scanned", "", fmt.Sprintf("%d sites", n))
 }
 
-
 // inLoopGuard: the index expression sits under `i < len(B)` — the condition of an enclosing if,
 // or the left operand of the && it is the right operand of.
 func inLoopGuard(body ast.Node, ie *ast.IndexExpr, idx, bTxt string) (string, bool) {
@@ -1446,7 +1445,6 @@ func inLoopGuard(body ast.Node, ie *ast.IndexExpr, idx, bTxt string) (string, bo
 	return "", false
 }
 
-
 // notAFreshWrapper: "" when every return of f is MakeInterface(struct literal) whose fields are
 // stored from f's own parameters (in particular the wrapped environment is parameter 0).
 func notAFreshWrapper(f *ssa.Function) string {
@@ -1493,7 +1491,6 @@ func notAFreshWrapper(f *ssa.Function) string {
 	return ""
 }
 
-
 func sliceHasCall(v ssa.Value, name string, seen map[ssa.Value]bool, depth int) bool {
 	if v == nil || seen[v] || depth > 30 {
 		return false
@@ -1532,7 +1529,6 @@ func sliceHasCall(v ssa.Value, name string, seen map[ssa.Value]bool, depth int) 
 	}
 	return false
 }
-
 
 // dependsOnDecoder: the value is data-dependent on a call into golang.org/x/text or
 // golang.org/x/net/html/charset — directly, or through a local buffer whose address was handed
